@@ -26,6 +26,7 @@ import (
 	"strings"
 	texttemplate "text/template"
 	"time"
+	_ "time/tzdata" // real zones offline
 	"unicode/utf8"
 
 	"github.com/samber/ro"
@@ -491,10 +492,36 @@ func genRune(r *simrt.Rng) rune {
 	return fixed[r.Intn(len(fixed))]
 }
 
-var c18Locs = []*time.Location{time.UTC, time.FixedZone("PLUS530", 5*3600+1800), time.FixedZone("MINUS8", -8*3600), time.FixedZone("", 0), time.FixedZone("ODD", 12345)}
+var c18Locs = func() []*time.Location {
+	locs := []*time.Location{time.UTC, time.FixedZone("PLUS530", 5*3600+1800), time.FixedZone("MINUS8", -8*3600), time.FixedZone("", 0), time.FixedZone("ODD", 12345)}
+	// real zones (embedded zone database, see the time/tzdata import): daylight-saving transitions, a
+	// half-hour shift, a transition at midnight, a skipped calendar day
+	for _, name := range []string{"Europe/Paris", "America/New_York", "Australia/Lord_Howe", "America/Sao_Paulo", "Pacific/Apia"} {
+		if l, err := time.LoadLocation(name); err == nil {
+			locs = append(locs, l)
+		}
+	}
+	return locs
+}()
+
+// instants around zone transitions of the real zones above (UTC)
+var c18Transitions = []time.Time{
+	time.Date(2021, 3, 28, 1, 0, 0, 0, time.UTC),   // Paris spring forward
+	time.Date(2021, 10, 31, 1, 0, 0, 0, time.UTC),  // Paris fall back
+	time.Date(2021, 3, 14, 7, 0, 0, 0, time.UTC),   // New York spring forward
+	time.Date(2021, 11, 7, 6, 0, 0, 0, time.UTC),   // New York fall back
+	time.Date(2021, 10, 2, 15, 30, 0, 0, time.UTC), // Lord Howe (+30 min)
+	time.Date(2018, 11, 4, 3, 0, 0, 0, time.UTC),   // Sao Paulo: midnight does not exist
+	time.Date(2011, 12, 30, 10, 0, 0, 0, time.UTC), // Apia skips December 30th
+}
 
 func genTime(r *simrt.Rng) time.Time {
 	loc := c18Locs[r.Intn(len(c18Locs))]
+	if r.Bool(0.25) {
+		// some hours around a transition, seen from a real zone
+		t := c18Transitions[r.Intn(len(c18Transitions))]
+		return t.Add(time.Duration(r.Intn(48*60)-24*60) * time.Minute).In(loc)
+	}
 	switch r.Intn(9) {
 	case 0:
 		return time.Time{}
